@@ -1,0 +1,26 @@
+//go:build verif
+
+package smtp
+
+import (
+	"net"
+
+	"github.com/rs/zerolog"
+)
+
+// VerifServe runs one SMTP session on conn and returns when the session ends.
+// Entry point for the external verification harness (build tag "verif").
+func (s *Server) VerifServe(conn net.Conn) {
+	s.startSession(1, conn, zerolog.Nop())
+}
+
+// VerifMailRegex exposes the match of the MAIL FROM argument pattern.
+func VerifMailRegex(arg string) []string {
+	return fromRegex.FindStringSubmatch(arg)
+}
+
+// VerifParseArgs exposes the ESMTP parameter parser.
+func VerifParseArgs(arg string) (map[string]string, bool) {
+	s := &Session{logger: zerolog.Nop()}
+	return s.parseArgs(arg)
+}
